@@ -20,15 +20,52 @@ class Loader:
         self._routine_segment = []
         self._routines = {}
         self._iter = None
+        self._index = -1
 
     def _next_inst(self):
         if self._iter is None:
             return None
         try:
+            self._index += 1
             return next(self._iter)
         except StopIteration:
             self._iter = None
             return None
+
+    @staticmethod
+    def _main_positions(instructions):
+        """
+        For every index, how many of the instructions before it stay in the
+        main segment. Routine bodies are moved out of line, so a branch that
+        spans a routine definition (one written inside an if or repeat body)
+        covers fewer instructions after loading.
+        """
+        positions = []
+        count = 0
+        routine_name = None
+        for inst in instructions:
+            positions.append(count)
+            if routine_name is None:
+                if inst.op_code is OpCode.ROUTINE:
+                    routine_name = inst.param0
+                else:
+                    count += 1
+            elif inst.op_code is OpCode.END and inst.param0 == routine_name:
+                routine_name = None
+        positions.append(count)
+        return positions
+
+    def _relocated(self, inst, index, positions):
+        # Returns inst, or a copy of a jump with its offset adjusted.
+        if inst.op_code is not OpCode.JUMP or not isinstance(inst.param1, int):
+            return inst
+        target = index + inst.param1
+        if not 0 <= target < len(positions):
+            return inst
+        offset = positions[target] - positions[index]
+        if offset == inst.param1:
+            return inst
+        return Instruction(inst.op_code, inst.param0, offset)
 
     @inject(i_runtime.Runtime)
     def load(self, instructions, runtime):
@@ -37,14 +74,18 @@ class Loader:
         self._routines.clear()
         self._load_runtime()
         if instructions is not None:
+            instructions = list(instructions)
+            positions = self._main_positions(instructions)
             self._iter = iter(instructions)
+            self._index = -1
             inst = self._next_inst()
             while inst is not None:
                 if inst.op_code is OpCode.ROUTINE:
                     rtn = self._load_routine(inst)
                     self._routines[rtn.name] = rtn
                 else:
-                    self._main_segment.append(inst)
+                    self._main_segment.append(
+                        self._relocated(inst, self._index, positions))
                 inst = self._next_inst()
 
     @inject(i_runtime.Runtime)
